@@ -17,6 +17,7 @@ const APISource = `
 import (
 	"encoding/json"
 	"fmt"
+	"io"
 	"os"
 )
 
@@ -108,6 +109,28 @@ func vMapOrder(on bool)   {}
 func vSchedExplore(maxDeviations int) {}
 func vNumCPU(n int)       {}
 func vAllowCrash(on bool) {}
+
+// vStdoutCapture / vStdout: what the code under test writes to os.Stdout between the two calls.
+var vStdoutR, vStdoutOld *os.File
+
+func vStdoutCapture() {
+	r, w, err := os.Pipe()
+	if err != nil {
+		panic(err)
+	}
+	vStdoutOld, vStdoutR = os.Stdout, r
+	os.Stdout = w
+}
+func vStdout() string {
+	if vStdoutR == nil {
+		return ""
+	}
+	os.Stdout.Close()
+	b, _ := io.ReadAll(vStdoutR)
+	os.Stdout = vStdoutOld
+	vStdoutR = nil
+	return string(b)
+}
 func vNote(s string)      {}
 func vObserve(tag string, v ...interface{}) {
 	s := tag + "="
@@ -269,6 +292,15 @@ func init() {
 		"vAllowCrash": func(ip *Interp, fn *ssa.Function, a []Value) Value {
 			ip.allowCrash = a[0].(*Term).C == 1
 			return nil
+		},
+		"vStdoutCapture": func(ip *Interp, fn *ssa.Function, a []Value) Value {
+			ip.stdout = nil
+			return nil
+		},
+		"vStdout": func(ip *Interp, fn *ssa.Function, a []Value) Value {
+			r := strFromTerms(ip.stdout)
+			ip.stdout = nil
+			return r
 		},
 		"vNumCPU": func(ip *Interp, fn *ssa.Function, a []Value) Value {
 			ip.numCPU = int(ip.concInt(a[0]))
